@@ -89,7 +89,13 @@ func newInjector(path string) (*injector, error) {
 	}
 	c.SetMaxOpenConns(1)
 	if _, err := c.Exec(`CREATE TABLE IF NOT EXISTS verif_ctl (id INTEGER PRIMARY KEY CHECK (id = 1), target INTEGER NOT NULL,
-		cnt INTEGER NOT NULL, slow INTEGER NOT NULL); INSERT OR IGNORE INTO verif_ctl VALUES (1, 0, 0, 0);`); err != nil {
+		cnt INTEGER NOT NULL, slow INTEGER NOT NULL, commitfail INTEGER NOT NULL DEFAULT 0); INSERT OR IGNORE INTO verif_ctl VALUES (1, 0, 0, 0, 0);
+		CREATE TABLE IF NOT EXISTS verif_parent (id INTEGER PRIMARY KEY);
+		CREATE TABLE IF NOT EXISTS verif_child (x INTEGER REFERENCES verif_parent(id) DEFERRABLE INITIALLY DEFERRED);
+		CREATE TRIGGER IF NOT EXISTS verif_commitfail_ins AFTER INSERT ON block WHEN (SELECT commitfail FROM verif_ctl) = 1
+			BEGIN INSERT INTO verif_child VALUES (999); END;
+		CREATE TRIGGER IF NOT EXISTS verif_commitfail_del AFTER DELETE ON block WHEN (SELECT commitfail FROM verif_ctl) = 1
+			BEGIN INSERT INTO verif_child VALUES (999); END;`); err != nil {
 		return nil, fmt.Errorf("ctl table: %w", err)
 	}
 	rows, err := c.Query(`SELECT name FROM sqlite_master WHERE type = 'table' AND name NOT LIKE 'verif_%'
@@ -130,7 +136,19 @@ func (i *injector) arm(target int, slow bool) error {
 	return err
 }
 
-func (i *injector) disarm() error { return i.arm(0, false) }
+// armCommit makes the COMMIT of the next transaction that inserts/deletes a block row fail (a deferred foreign key is
+// violated by a trigger; the violation is only detected at commit time).
+func (i *injector) armCommit() error {
+	_, err := i.c.Exec(`UPDATE verif_ctl SET commitfail = 1, target = 0, cnt = 0`)
+	return err
+}
+
+func (i *injector) disarm() error {
+	if _, err := i.c.Exec(`UPDATE verif_ctl SET commitfail = 0`); err != nil {
+		return err
+	}
+	return i.arm(0, false)
+}
 
 func (i *injector) close() { i.c.Close() }
 
@@ -418,6 +436,11 @@ func (r *runner) runOne(idx int, b Behaviour, mk func(dir string, rng *rand.Rand
 					cancel()
 					return err
 				}
+			case "commit":
+				if err := inj.armCommit(); err != nil {
+					cancel()
+					return err
+				}
 			case "ctx":
 				real = kd.realStmt(op, op.Fault.At, r.rng)
 				if err := inj.arm(real, true); err != nil {
@@ -447,6 +470,11 @@ func (r *runner) runOne(idx int, b Behaviour, mk func(dir string, rng *rand.Rand
 			r.w.Emit(ev)
 		case "reorg":
 			real := 0
+			if op.Fault.Kind == "commit" {
+				if err := inj.armCommit(); err != nil {
+					return err
+				}
+			}
 			if op.Fault.Kind == "stmt" || op.Fault.Kind == "real" {
 				real = op.Fault.At // Reorg's statements are its DELETEs, in order: block rows, then the root table(s)
 				if err := inj.arm(real, false); err != nil {
